@@ -8,6 +8,7 @@ symlinks to /dev/full.
 """
 import fcntl
 import os
+import time
 import random
 import resource
 import signal
@@ -87,8 +88,40 @@ def run_pipe_limit(argv, stdin, n, cwd=None):
     p = subprocess.Popen(argv, stdin=subprocess.PIPE, stdout=wr, stderr=subprocess.PIPE, env=env, cwd=cwd,
                          preexec_fn=pre, close_fds=True)
     os.close(wr)
+    # standard input is fed from a thread: the tool may need it before it prints anything
+    import threading
+
+    def feed():
+        try:
+            if stdin:
+                p.stdin.write(stdin)
+            p.stdin.close()
+        except (BrokenPipeError, OSError, ValueError):
+            pass
+    th = threading.Thread(target=feed, daemon=True)
+    th.start()
+    errbuf = []
+
+    def drain():
+        try:
+            errbuf.append(p.stderr.read())
+        except (OSError, ValueError):
+            pass
+    te = threading.Thread(target=drain, daemon=True)
+    te.start()
     got = b''
+    import select
+    deadline = time.time() + 30
+    to = False
     while rd is not None and len(got) < n:
+        left = deadline - time.time()
+        if left <= 0:
+            to = True
+            break
+        rl, _, _ = select.select([rd], [], [], left)
+        if not rl:
+            to = True
+            break
         c = os.read(rd, n - len(got))
         if not c:
             break
@@ -96,12 +129,15 @@ def run_pipe_limit(argv, stdin, n, cwd=None):
     if rd is not None:
         os.close(rd)
     try:
-        _, err = p.communicate(stdin, timeout=30)
-        to = False
+        p.wait(timeout=max(1, deadline - time.time()))
     except subprocess.TimeoutExpired:
-        p.kill()
-        _, err = p.communicate()
         to = True
+    if to:
+        p.kill()
+        p.wait()
+    th.join(2)
+    te.join(2)
+    err = errbuf[0] if errbuf else b''
     return p.returncode, got, err, cap, to
 
 
